@@ -10,7 +10,7 @@ open Gts.Pars
 def accessionLine (f : Fields) : Bytes :=
   f.accession ++ match f.region with
     | none => []
-    | some (h, t) => bs " REGION: " ++ itoaB (h + 1) ++ bs ".." ++ itoaB t
+    | some (h, t) => if t ≤ h then [] else bs " REGION: " ++ itoaB (h + 1) ++ bs ".." ++ itoaB t
 
 /-- the header sections in the order of `GenBank.String` -/
 def headerSecs (f : Fields) : List Section :=
@@ -49,11 +49,8 @@ theorem flatMap_extras (es : List (Bytes × Bytes)) :
     simp only [List.flatMap_cons, List.map_cons, secsText, secExtra] at ih ⊢
     rw [ih]
 
-/-- the region of a sliced record is a proper segment (else `gts.Range` panics in the writer) -/
-def regionOk (f : Fields) : Bool := match f.region with | none => true | some (h, t) => decide (h < t)
-
 /-- `headerText` = LOCUS line, line feed, the header sections -/
-theorem headerText_eq (f : Fields) (length : Int) (hr : regionOk f = true)
+theorem headerText_eq (f : Fields) (length : Int)
     (hp : ∀ x ∈ f.references, ∀ v, x.pubmed = some v → noEOL v = true) :
     headerText f length = .ok (locusLine f length ++ 10 :: secsText (headerSecs f)) := by
   have hrefs := referencesText_eq f.references hp
@@ -69,10 +66,14 @@ theorem headerText_eq (f : Fields) (length : Int) (hr : regionOk f = true)
       Bind.bind, Except.bind, pure, Except.pure]
   | some ht =>
     obtain ⟨h, t⟩ := ht
-    have hlt : ¬ t ≤ h := by simp [regionOk, hreg] at hr; omega
-    simp only [hrefs, hdb, flatMap_comments, flatMap_extras, headerSecs, secsText_append, accessionLine, hreg, hlt,
-      if_false]
-    simp [secsText, secDefinition, secAccession, secVersion, secKeywords, secSource, List.append_assoc,
-      Bind.bind, Except.bind, pure, Except.pure]
+    by_cases hlt : t ≤ h
+    · simp only [hrefs, hdb, flatMap_comments, flatMap_extras, headerSecs, secsText_append, accessionLine, hreg, hlt,
+        if_true]
+      simp [secsText, secDefinition, secAccession, secVersion, secKeywords, secSource, List.append_assoc,
+        Bind.bind, Except.bind, pure, Except.pure]
+    · simp only [hrefs, hdb, flatMap_comments, flatMap_extras, headerSecs, secsText_append, accessionLine, hreg, hlt,
+        if_false]
+      simp [secsText, secDefinition, secAccession, secVersion, secKeywords, secSource, List.append_assoc,
+        Bind.bind, Except.bind, pure, Except.pure]
 
 end Gts.GenBank
